@@ -23,6 +23,7 @@ type lcDesc struct {
 	Timeout   bool     `json:"timeout"`         // serve with an idle timeout (C15)
 	Fires     int      `json:"fires"`           // accept-deadline expiries available to the timer thread
 	Plain     int      `json:"plain,omitempty"` // with Timeout and two rounds: round Plain-1 is served without a timeout (0 = every round has one)
+	OwnCtx    bool     `json:"ownctx,omitempty"` // every round is served under its own context, cancelled by the caller as soon as the serving call has returned (defer cancel())
 	Via       string   `json:"via"`             // "dolisten": install a listener + DoListen; "listen": Listen(address) with the network listen hooked onto the controlled listener
 }
 
@@ -118,8 +119,9 @@ func lcBody(d lcDesc) func() {
 				}
 				if p := st.pendingTO; p != nil {
 					p.nextOp = ev
-					for _, t := range st.shutStart {
-						if t != 0 {
+					for k, t := range st.shutStart {
+						// a Shutdown that had returned before this round was bound concerned an earlier round
+						if t != 0 && (st.shutRet[k] == 0 || st.shutRet[k] > st.bound[r]) {
 							p.shutSeen = true
 						}
 					}
@@ -189,16 +191,23 @@ func lcBody(d lcDesc) func() {
 		vsched.GoDaemon("M", func() {
 			for r := 0; r < d.Rounds; r++ {
 				var err error
+				sctx := w.Ctx
+				if d.OwnCtx {
+					sctx = vnet.NewCtx(fmt.Sprintf("serve%d", r))
+				}
 				if d.Via == "listen" {
 					st.nextBind = r
-					err = w.S.Listen(w.Ctx, "unix:@vx", timeoutOf(r))
+					err = w.S.Listen(sctx, "unix:@vx", timeoutOf(r))
 					if st.bound[r] == 0 && st.hooked[r] {
 						st.bound[r] = w.ev("bound %d (seen at return)", r)
 					}
 				} else {
 					w.S.VerifSetListener(st.Ls[r])
 					st.bound[r] = w.ev("bound %d", r)
-					err = w.S.DoListen(w.Ctx, timeoutOf(r))
+					err = w.S.DoListen(sctx, timeoutOf(r))
+				}
+				if d.OwnCtx {
+					sctx.Cancel() // the caller's deferred cancel(): this run is over, its context is released
 				}
 				if p := st.pendingTO; p != nil {
 					p.nextOp = "return"
@@ -441,6 +450,19 @@ func lcCheck14(x *vsched.Exec) (string, string) {
 	if st.negCount {
 		return "active connection count went negative", "symptom=negative-count"
 	}
+	// a later run on the same object ends only for a reason of its own: some Shutdown was issued after the
+	// previous run had returned (what the previous run's caller does with its context is no such reason)
+	if d.OwnCtx && d.Rounds == 2 && st.ret[0] != 0 && st.ret[1] != 0 {
+		own := false
+		for k := range st.shutStart {
+			if st.shutStart[k] > st.ret[0] && st.shutStart[k] < st.ret[1] {
+				own = true
+			}
+		}
+		if !own {
+			return fmt.Sprintf("round 1 returned %q although no Shutdown was issued after round 0 had returned (the only event in between: round 0's context was cancelled by its caller)", st.retVal[1]), "symptom=later-run-ended-by-earlier-context"
+		}
+	}
 	// (3) no late service
 	if d.Late && st.lateOK {
 		for _, a := range st.Ls[0].Accepted {
@@ -542,6 +564,11 @@ func scenariosC14(tier string) []Scen {
 		descs = append(descs, lcDesc{Conns: append([]string{"block"}, cs...), Shutdowns: 1, Cancel: true, Rounds: 1})
 		// reuse: two rounds
 		descs = append(descs, lcDesc{Conns: cs, Shutdowns: 2, Rounds: 2})
+		if len(cs) <= 1 {
+			// reuse with one context per run, each cancelled by its caller once the run is over
+			descs = append(descs, lcDesc{Conns: cs, Shutdowns: 2, Rounds: 2, OwnCtx: true})
+			descs = append(descs, lcDesc{Conns: cs, Shutdowns: 1, Rounds: 2, OwnCtx: true})
+		}
 	}
 	descs = withVia(descs)
 	var out []Scen
@@ -682,6 +709,9 @@ func scenariosC15(tier string) []Scen {
 		descs = append(descs, lcDesc{Conns: cs, Rounds: 1, Timeout: true, Fires: 2, Shutdowns: 1})
 		// the same Service object served once with and once without a timeout, in both orders: what one run was
 		// given must not govern the next
+		// a first run ended by Shutdown (connections possibly still open at that moment), then a second run that
+		// must time out when idle like a first one
+		descs = append(descs, lcDesc{Conns: cs, Rounds: 2, Timeout: true, Fires: 2, Shutdowns: 1})
 		descs = append(descs, lcDesc{Conns: cs, Rounds: 2, Timeout: true, Fires: 3, Plain: 2})
 		descs = append(descs, lcDesc{Conns: cs, Rounds: 2, Timeout: true, Fires: 2, Plain: 1, Shutdowns: 1})
 		// no timeout: never stops by itself, never arms a deadline
